@@ -1,4 +1,5 @@
 import TwistedModel.Spread.Banana
+import TwistedModel.Spread.BananaConn
 /-!
 Driver glue for C44 (Banana).
 
@@ -13,6 +14,14 @@ Dialect `pb` / `none`; `<lim>` = prefixLimit.
   `C44 rt <dialect> <lim> <expr> <n>,<n>…`    → `enc=<hex>|exprs=…|err=…` | `enc=!raised BananaError`
       (the model's own encoding is cut into deliveries of the given sizes — `-` = no sizes —,
        the remainder, if any, is the last delivery; then decoded from a fresh state)
+  `C44 sess <dialect> <lim> <echo 0|1> <step>;<step>…`   (`.` = no step) — a history on two connected Bananas A, B:
+      `sA:<expr>` / `sB:<expr>`  that side's `sendEncoded`       → `ok=<bytes written>` | `!BananaError`
+      `dA:<n>` / `dB:<n>`        the next n bytes that side wrote reach its peer's `dataReceived` → `r<k>` (k expressions delivered)
+      then A's pending bytes reach B, then B's reach A; with echo=1 B answers every expression by `sendEncoded` of it
+      → `<outcome>;…|B<exprs=…,err=…|A<exprs=…,err=…`
+  `C44 mod <step>;<step>…` — the module-level helpers on their shared instance:
+      `e:<expr>` `banana.encode` → `ok=<bytes>` | `!BananaError`;  `x:<hex>` `banana.decode` of raw bytes (`-` = empty) →
+      `v=<expr>` | `!<Name>`;  `r:<expr>` `banana.decode(banana.encode(expr))`
 -/
 namespace Twisted.Drv.C44
 open Twisted.Spread.Banana
@@ -131,8 +140,88 @@ def cut : Bytes → List Nat → List Bytes
   | bs, [] => if bs.isEmpty then [] else [bs]
   | bs, n :: ns => bs.take n :: cut (bs.drop n) ns
 
+def showGot (l : Link) : String :=
+  "exprs=" ++ "/".intercalate (l.got.map showExpr) ++ ",err=" ++
+    (match l.rerr with | none => "-" | some e => errName e)
+
+/-- one step of a `sess` history: the operation and which outcome text it produces -/
+def decOp (s : String) : Option Op :=
+  match s.splitOn ":" with
+  | ["sA", e] => (decExpr e).map (Op.send false)
+  | ["sB", e] => (decExpr e).map (Op.send true)
+  | ["dA", n] => n.toNat?.map (Op.deliver false)
+  | ["dB", n] => n.toNat?.map (Op.deliver true)
+  | _ => none
+
+def decOps (s : String) : Option (List Op) :=
+  if s = "." then some [] else (s.splitOn ";").mapM decOp
+
+/-- run a history step by step, producing the outcome text of every step -/
+def runSess (c : Cfg) (echo : Bool) : Pair → List Op → Pair × List String
+  | p, [] => (p, [])
+  | p, op :: ops =>
+    let r := p.step c echo op
+    let o : String := match op with
+      | .send side _ =>
+        (match r.2 with
+         | some e => "!" ++ errName e
+         | none =>
+           let before := if side then p.ba.pending.length else p.ab.pending.length
+           let after := if side then r.1.ba.pending else r.1.ab.pending
+           "ok=" ++ showBytes (after.drop before))
+      | .deliver side _ =>
+        let before := if side then p.ba.got.length else p.ab.got.length
+        let after := if side then r.1.ba.got.length else r.1.ab.got.length
+        "r" ++ toString (after - before)
+    let r2 := runSess c echo r.1 ops
+    (r2.1, o :: r2.2)
+
+inductive ModStep
+  | enc (e : Expr)
+  | raw (b : Bytes)
+  | rt (e : Expr)
+
+def decModStep (s : String) : Option ModStep :=
+  match s.splitOn ":" with
+  | ["e", e] => (decExpr e).map ModStep.enc
+  | ["r", e] => (decExpr e).map ModStep.rt
+  | ["x", h] => if h = "-" then some (.raw []) else (unhex h).map ModStep.raw
+  | _ => none
+
+def showModOut : ModOut → String
+  | .value v => "v=" ++ showExpr v
+  | .raised e => "!" ++ errName e
+  | .indexError => "!IndexError"
+
+def runMod : State → List ModStep → List String
+  | _, [] => []
+  | s, .enc e :: rest =>
+    (match modEncode e with
+     | .ok b => "ok=" ++ showBytes b
+     | .error er => "!" ++ errName er) :: runMod s rest
+  | s, .raw b :: rest =>
+    let r := modDecode s b
+    showModOut r.2 :: runMod r.1 rest
+  | s, .rt e :: rest =>
+    match modEncode e with
+    | .error er => ("!" ++ errName er) :: runMod s rest
+    | .ok b =>
+      let r := modDecode s b
+      showModOut r.2 :: runMod r.1 rest
+
 def handle (args : List String) : String :=
   match args with
+  | ["sess", d, lim, echo, steps] =>
+    match decCfg d lim, decOps steps, (if echo = "0" then some false else if echo = "1" then some true else none) with
+    | some c, some ops, some echo =>
+      let r := runSess c echo Pair.init ops
+      let p := r.1.flush c echo
+      ";".intercalate r.2 ++ "|B<" ++ showGot p.ab ++ "|A<" ++ showGot p.ba
+    | _, _, _ => "bad-op"
+  | ["mod", steps] =>
+    match (steps.splitOn ";").mapM decModStep with
+    | some st => ";".intercalate (runMod State.init st)
+    | none => "bad-op"
   | ["enc", d, lim, e] =>
     match decCfg d lim, decExpr e with
     | some c, some e =>
